@@ -10,8 +10,13 @@ exactly what the interpreter computes (`emitted_serialize_eq_encode`, `emitted_s
 `deserialize` body is the rendering of an abstract program too (`deserialize_text_is_render`), and for every
 concrete class -- with or without base class, members read into the temporary buffer before their
 discriminant included -- whatever the interpreter decodes the emitted program returns
-(`emitted_deserialize_of_decode`). harness/c15.py ties the rendered text to the real generator on random
-schemas and runs the result against the driver.
+(`emitted_deserialize_of_decode`), and conversely what the emitted program returns the interpreter decodes
+(`emitted_deserialize_sound`, `emitted_deserialize_iff`: they accept the same byte strings, up to the
+interpreter's bound of `maxCount` array elements). The factories (`emitted_factory_iff`, the `KeyError` case
+`emitted_factory_key_error`, `create_by_name_spec`), the `sort` method (`emitted_sort_eq_sort`) and the alias /
+enum classes (`emitted_scalar_serialize_size`, `emitted_scalar_deserialize`) are treated the same way: syntax,
+rendering = the emitted text, semantics = the interpreter. harness/c15.py ties the rendered text to the real
+generator on random schemas and runs the result against the driver.
 "Generating twice gives identical text" is, at the modelled granularity, `generate_deterministic`.
 -/
 import SymbolVerif.Properties.C01
